@@ -12,8 +12,8 @@ import (
 
 func init() {
 	register("C12", core.Spec{
-		Decides: "a narrow 'nothing dropped, nothing invented' clause for both formatters, on every control-flow path. lang/render.Render: every token of a line has its text (tm.ByID, or appendNum for numerals) appended to the line buffer before the next token is considered, including the name tokens in front of an aligned colon; the token list of a line is only ever shortened by trailing semicolons or by the already-emitted name prefix; the only things appended to the buffer are token text, single spaces/newlines, indentation and comments; and every non-empty line buffer is written to the output (error checked) before it is reset. lib/dumbindent.FormatBytes: every byte appended to the output is a sub-slice of the input line being processed, an indentation/newline constant, or comes from handleRaw copying the input through; every non-blank line is appended followed by a newline before the next line is taken. D3.* — dumbindent's cursors (src, line, lineLength and the output cursor) stay in step on every path, by a forward must-dataflow on go/cfg: every src[lineLength-len(rest):] denotes the byte where rest starts, handleRaw takes over exactly where the last append stopped and re-binds src/line/lineLength together, line is only advanced past bytes that were appended, handleRaw splits its argument at one index; R8–R11 — every index of comments below len(comments) is passed to appendComment and written (loop bounds, unit step, flush before each token line, the line's own comment, no success return before the trailing flush)",
-		NotDecided: "that spacing decisions keep tokens apart (tight-left/right tables), numeric literal re-grouping in appendNum, what appendComment does with a comment's text, idempotence, and — for dumbindent — termination as such, the lexing decisions (what counts as a comment, string or preprocessor line) and the indentation amounts. Token preservation and idempotence as such are functions of run-time text and remain undecided",
+		Decides:     "a narrow 'nothing dropped, nothing invented' clause for both formatters, on every control-flow path. lang/render.Render: every token of a line has its text (tm.ByID, or appendNum for numerals) appended to the line buffer before the next token is considered, including the name tokens in front of an aligned colon; the token list of a line is only ever shortened by trailing semicolons or by the already-emitted name prefix; the only things appended to the buffer are token text, single spaces/newlines, indentation and comments; and every non-empty line buffer is written to the output (error checked) before it is reset. lib/dumbindent.FormatBytes: every byte appended to the output is a sub-slice of the input line being processed, an indentation/newline constant, or comes from handleRaw copying the input through; every non-blank line is appended followed by a newline before the next line is taken. D3.* — dumbindent's cursors (src, line, lineLength and the output cursor) stay in step on every path, by a forward must-dataflow on go/cfg: every src[lineLength-len(rest):] denotes the byte where rest starts, handleRaw takes over exactly where the last append stopped and re-binds src/line/lineLength together, line is only advanced past bytes that were appended, handleRaw splits its argument at one index; R8–R11 — every index of comments below len(comments) is passed to appendComment and written (loop bounds, unit step, flush before each token line, the line's own comment, no success return before the trailing flush)",
+		NotDecided:  "that spacing decisions keep tokens apart (tight-left/right tables), numeric literal re-grouping in appendNum, what appendComment does with a comment's text, idempotence, and — for dumbindent — termination as such, the lexing decisions (what counts as a comment, string or preprocessor line) and the indentation amounts. Token preservation and idempotence as such are functions of run-time text and remain undecided",
 		Assumptions: []string{"go/types, go/cfg", "a token's text is exactly tm.ByID(tok.ID)", "source lines are numbered from 1 (lang/token.Tokenize), so comments[0] is empty", "positions in dumbindent are only computed from len(): a nil slice returned by skipCooked counts as the empty suffix at the end of the line"},
 	}, runC12)
 }
